@@ -579,6 +579,19 @@ CLAIMED["C08"]["text"] += " Round 9 (fix9): SFM_RDWR handles on EXISTING files o
 CLAIMED["C04"]["text"] += " Round 9 (fix9): conversion / header setters (SFC_TEST_IEEE_FLOAT_REPLACE, clipping, norm, scale, peak, auto header, ...) between the writes of an SFM_WRITE handle of every sample-granular format (vlib/setcmds.py); lean/SfProps/C04IeeeReinit.lean session_frames (any sequence of writes and commands), old rule refuted."
 
 
+# ---- round 9 (worker wbridge3b): sample-level bridge (AIFF / CAF / W64), SVX re-open theorem, exact rate clauses (appended) ----
+_R9_WBRIDGE3B = (" Round 9 (write-side bridge, sample level; exact rate clauses): Sf.AbsWriteBridge.Sample -- SCont / SLaws (closed bytes = f (caller type, samples per call); the partition law closedFn is stated ON SAMPLES) and "
+                 "sample_cont_session_accepted (SfProofs/AbsWriteBridgeSample*.lean); PEAK bookkeeping = Sf.Peak.run threaded through the calls, peak_partition (value AND position independent of the split, from C18 run_partition); "
+                 "instances w64_session_accepted, aiff_session_accepted (AIFF / AIFF-C, every encoding incl. FLOAT / DOUBLE with the PEAK chunk), caf_session_accepted in SfProps/C04Bridge3.lean (WAVEX / RF64: no parser model, not instantiated). "
+                 "SVX: svx_reopen_info = the universal re-open theorem of the chunk-loop reader over the model's writer (SfProofs/SvxReopen.lean svx_reopens / svx_snapshot_reopens, guard: BODY size < 2^32), svx_session_accepted_all has no reader hypothesis; "
+                 "proving it found KF-SVX-NAME-LENGTH (a file written under a 254 / 255 character name could not be re-opened: NAME chunk of 256 bytes refused), repaired (over-long NAME chunk skipped), old rule Sf.Svx.parseNameOld / svx_reopen_info_old_rule_fails. "
+                 "Rate clauses: rateOk is EXACT for the 16-bit class (min sr 65535) and the binary32 class (float32Quant; IrcamRateExact.ircam_rateQ_exact: the model's IEEE round trip IS it at every rate), rateOkG / judgeG (what sfmodel abs-write evaluates) "
+                 "decides VOC on the whole geometry: type 9 the rate, type 1 / 8 exactly the 8- / 16-bit time-constant quantiser; ircam / voc / svx_rate_exact_accepted and _only, ircam_session_accepted_every_rate, voc_session_accepted_every_rate; "
+                 "the tolerances of before are *_old_rule witnesses (divisorTolOld, float32CapOld, field16Old); vlib/geometry.py rate_ok mirrors (integer arithmetic); campaign rates at the divisor breakpoints (1953 / 1954, 3906 / 3907, 500000 / 500001, 10^6 (+1), 64 / 128 * 10^6 (+1)) and binary32 ties.")
+for _p in ("C01", "C04", "C07", "C11"):
+    CLAIMED[_p]["text"] += _R9_WBRIDGE3B
+
+
 def main():
     checks = []
     for p in PROPS:
